@@ -31,16 +31,27 @@ let rec xty_ s : M.xty =
 
 let mapping_ s : M.mapping = list_ (pair_ str_ str_) s
 
+(* byte-wise quoting shared with the Rust driver: printable ASCII verbatim, everything else \xHH *)
+let esc (l : char list) : string =
+  let b = Buffer.create 16 in
+  Buffer.add_char b '"';
+  List.iter (fun c ->
+    let n = Char.code c in
+    if n >= 32 && n < 127 && c <> '"' && c <> '\\' then Buffer.add_char b c
+    else Buffer.add_string b (Printf.sprintf "\\x%02x" n)) l;
+  Buffer.add_char b '"';
+  Buffer.contents b
+
 let rec canon (t : M.tstruct) : string =
   match t with
-  | M.TPrim p -> Printf.sprintf "(prim %S)" (implode p)
+  | M.TPrim p -> "(prim " ^ esc p ^ ")"
   | M.TArr u -> "(arr " ^ canon u ^ ")"
   | M.TMap (k, v) -> "(map " ^ canon k ^ " " ^ canon v ^ ")"
   | M.TSet u -> "(set " ^ canon u ^ ")"
   | M.TTuple l -> "(tuple" ^ String.concat "" (List.map (fun x -> " " ^ canon x) l) ^ ")"
   | M.TOpt u -> "(opt " ^ canon u ^ ")"
   | M.TRes u -> "(res " ^ canon u ^ ")"
-  | M.TCustom n -> Printf.sprintf "(custom %S)" (implode n)
+  | M.TCustom n -> "(custom " ^ esc n ^ ")"
 
 let tok_str (t : M.tok) : string =
   match t with
